@@ -21,7 +21,7 @@ func VerifC19ConditionMap() {
 	u.SetAPIVersion("v1")
 	u.SetKind("ConfigMap")
 	u.SetName("x")
-	ann := map[string]string{manifestsv1alpha1.PackagePhaseAnnotation: verifrt.StringFrom("phase", "deploy", "unknown", "")}
+	ann := map[string]string{manifestsv1alpha1.PackagePhaseAnnotation: verifrt.StringFrom("phase", "deploy", "unknown", "", "Deploy")}
 	if verifrt.Bool("hasConditionMap") {
 		ann[manifestsv1alpha1.PackageConditionMapAnnotation] = verifrt.StringFrom("conditionMap",
 			"Available => my/Available", "", "a", "=>b", "a=>", "a=>b\nc", "a=>b\n\nc=>d", " ", "=>")
@@ -32,6 +32,7 @@ func VerifC19ConditionMap() {
 	u.SetAnnotations(ann)
 	man := &manifests.PackageManifest{Spec: manifests.PackageManifestSpec{Phases: []manifests.PackageManifestPhase{{Name: "deploy"}}}}
 	rejected := false
+	placed := 0
 	msg := verifrt.PanicMessage(func() {
 		err := DefaultObjectValidators.ValidateObjects(context.Background(), man, map[string][]unstructured.Unstructured{"x.yaml": {u}})
 		if err != nil {
@@ -39,9 +40,18 @@ func VerifC19ConditionMap() {
 			return
 		}
 		inst := &packagetypes.PackageInstance{Manifest: man, Objects: []unstructured.Unstructured{u}}
-		_ = packagerender.RenderObjectSetTemplateSpec(inst)
+		spec := packagerender.RenderObjectSetTemplateSpec(inst)
+		for _, ph := range spec.Phases {
+			for _, o := range ph.Objects {
+				if o.Object.GetName() == "x" && ph.Name == "deploy" {
+					placed++
+				}
+			}
+		}
 	})
 	verifrt.Assert(msg == "", "C19/validate-then-render-never-panics")
+	// C13: what passes validation appears exactly once, in the phase its annotation names
+	verifrt.Assert(rejected || placed == 1, "C13/validated-object-appears-exactly-once-in-its-phase")
 	if rejected {
 		verifrt.Reach("rejected")
 	} else {
